@@ -330,6 +330,81 @@ func MountAfterLookup(out *RunResult) {
 	}
 }
 
+// KeptRequest: a handler keeps the Resource value of its request; later, after requests for other resources
+// have been served, a callback is submitted with WithResource on the kept value: it belongs to the group of the
+// resource the value was made for, and starts after the callbacks submitted to that group before it.
+func KeptRequest(out *RunResult) {
+	viol := func(kind, text string) {
+		out.Violations = append(out.Violations, Violation{Property: "C02", Kind: kind, Text: text, Sig: map[string]string{"kind": kind, "engine": "sched", "group": "jobs"}})
+	}
+	s := res.NewService("test")
+	s.SetLogger(nil)
+	s.SetWorkerCount(4)
+	kept := make(chan res.Resource, 1)
+	s.Handle("job.$id", res.Group("jobs"), res.Call("start", func(r res.CallRequest) {
+		select {
+		case kept <- r:
+		default:
+		}
+		r.OK(nil)
+	}))
+	s.Handle("ping", res.Call("m", func(r res.CallRequest) { r.OK(nil) }))
+	s.Handle("par.$id", res.Parallel(true), res.Call("m", func(r res.CallRequest) { r.OK(nil) }))
+	conn := rconn.New(nil)
+	served := make(chan struct{})
+	s.SetOnServe(func(*res.Service) { close(served) })
+	done := make(chan error, 1)
+	go func() { done <- s.Serve(conn) }()
+	select {
+	case <-served:
+	case <-time.After(3 * time.Second):
+		return
+	}
+	defer func() {
+		s.Shutdown()
+		select {
+		case <-done:
+		case <-time.After(3 * time.Second):
+		}
+	}()
+	conn.Deliver("call.test.job.1.start", "inbox.k", nil)
+	var r res.Resource
+	select {
+	case r = <-kept:
+	case <-time.After(2 * time.Second):
+		return
+	}
+	for i := 0; i < 300; i++ {
+		conn.Deliver([]string{"call.test.ping.m", "call.test.par.7.m"}[i%2], "inbox.p", nil)
+	}
+	time.Sleep(10 * time.Millisecond)
+	if r.Group() != "jobs" || r.ResourceName() != "test.job.1" {
+		viol("wrong-group", fmt.Sprintf("the Resource value a handler kept from its request for test.job.1 (group jobs) now says resource %q, group %q", r.ResourceName(), r.Group()))
+	}
+	release, first := make(chan struct{}), make(chan struct{})
+	var order []string
+	var mu sync.Mutex
+	note := func(x string) { mu.Lock(); order = append(order, x); mu.Unlock() }
+	s.WithGroup("jobs", func(*res.Service) { note("first"); close(first); <-release })
+	<-first
+	s.WithGroup("jobs", func(*res.Service) { note("second") })
+	third := make(chan struct{})
+	s.WithResource(r, func() { note("kept"); close(third) })
+	time.Sleep(20 * time.Millisecond)
+	mu.Lock()
+	early := strings.Join(order, ",")
+	mu.Unlock()
+	close(release)
+	select {
+	case <-third:
+	case <-time.After(2 * time.Second):
+		viol("lost", "the callback submitted with WithResource on the kept value did not run")
+	}
+	if early != "first" {
+		viol("order", fmt.Sprintf("callbacks of group jobs started while its first callback was still inside: %s", early))
+	}
+}
+
 // NestedMountGroups: the only handler with a Group option sits two mount levels down, the levels built from
 // the outside in (s.Route("api", nil), then api.Route("v2", ...)). Requests and With callbacks for its
 // resources belong to that one group: they run one at a time.
@@ -511,6 +586,7 @@ func TwoListenerLoop(seed int64, prog Program, n int) *RunResult {
 	}
 	MountAfterLookup(out)
 	NestedMountGroups(out)
+	KeptRequest(out)
 	return out
 }
 
